@@ -1,0 +1,20 @@
+//go:build verif
+// +build verif
+
+// Verification hook (build tag verif, add-only): exported wrappers around the
+// unexported jump-destination analysis so a harness can call the real functions.
+package vm
+
+import "github.com/holiman/uint256"
+
+// VerifCodeBitmap returns codeBitmap(code).
+func VerifCodeBitmap(code []byte) []byte {
+	return codeBitmap(code)
+}
+
+// VerifValidJumpdest runs Contract.validJumpdest on a fresh contract holding code
+// (no code hash, so the analysis is computed locally as for init code).
+func VerifValidJumpdest(code []byte, dest *uint256.Int) bool {
+	c := &Contract{Code: code}
+	return c.validJumpdest(dest)
+}
